@@ -19,6 +19,7 @@ import "go.starlark.net/syntax"
 //
 //verif:unwind 400
 func zzH15_repr_eval() {
+	zzExactItoa(true) // the digits of the symbolic int are part of the claim here
 	s := zzString("s", 1)
 	zzAssume(s[0] < 0x80)
 	by := zzString("b", 1)
